@@ -111,5 +111,5 @@ package handlers
 //@   opt nomonitor = 1
 //@   opt partial = 1
 //@   requires handler != nil && handler.state != nil && state.InvQ(handler.state)
-//@   assert valid_before_queue at call AddBlock : [C12] [C04] BlockValid(arg2)
-//@   assert valid_before_refeed at call SetBlock : [C12] [C04] BlockValid(arg2)
+//@   assert valid_before_queue at call AddBlock : [C12 C04] BlockValid(arg2)
+//@   assert valid_before_refeed at call SetBlock : [C12 C04] BlockValid(arg2)
